@@ -96,15 +96,21 @@ class SetSimJoin(object):
             ts = [tb[2]] if len(tb) > 2 else rng.sample(THR, 3)
             for t in ts:
                 yield dict(l=tb[0], r=tb[1], t=t, allow_empty=rng.random() < 0.5, score=rng.random() < 0.7,
-                           progress=False)
+                           progress=False, lperm=rng.choice([0, 1, 2]), rperm=rng.choice([0, 1, 2]))
 
     def check(self, case, a):
         from py_stringsimjoin.join.set_sim_join import set_sim_join
         M, op, ll, rl = parse_case(case)
         tok = real_tokenizer()
-        lcols, rcols = ['id', 'v', 'x'], ['rid', 'w', 'y']
-        lt = [('l%d' % i, s, 'lx%d' % i) for i, s in enumerate(a['l'])]
-        rt = [('r%d' % i, s, 'ry%d' % i) for i, s in enumerate(a['r'])]
+        # column orders vary, so that the key / join columns sit at different positions in the two arrays
+        perms = [(0, 1, 2), (1, 0, 2), (2, 0, 1)]
+        lp_, rp_ = perms[a.get('lperm', 0)], perms[a.get('rperm', 0)]
+        lcols0, rcols0 = ['id', 'v', 'x'], ['rid', 'w', 'y']
+        lcols, rcols = [lcols0[k] for k in lp_], [rcols0[k] for k in rp_]
+        lt0 = [('l%d' % i, s, 'lx%d' % i) for i, s in enumerate(a['l'])]
+        rt0 = [('r%d' % i, s, 'ry%d' % i) for i, s in enumerate(a['r'])]
+        lt = [tuple(row[k] for k in lp_) for row in lt0]
+        rt = [tuple(row[k] for k in rp_) for row in rt0]
         louts, routs = (['x', 'v'] if ll else None), (['y'] if rl else None)
         out = set_sim_join(lt, rt, lcols, rcols, 'id', 'rid', 'v', 'w', tok, M, a['t'], op, a['allow_empty'],
                            louts, routs, 'l_', 'r_', a['score'], a['progress'])
@@ -112,23 +118,26 @@ class SetSimJoin(object):
         cmp_ = OPS[op]
         t = a['t']
 
+        lv_ = lambda i: lt0[i][1]
+        rv_ = lambda j: rt0[j][1]
+
         def both_empty(i, j):
-            return not T(lt[i][1]) and not T(rt[j][1])
+            return not T(lv_(i)) and not T(rv_(j))
 
         def s_(i, j):
-            return raw_sim(M, T(lt[i][1]), T(rt[j][1]))
+            return raw_sim(M, T(lv_(i)), T(rv_(j)))
 
         def must(i, j):
             if both_empty(i, j):
                 return a['allow_empty']
-            if not T(lt[i][1]) or not T(rt[j][1]):
+            if not T(lv_(i)) or not T(rv_(j)):
                 return False
             return cmp_(s_(i, j), t) and cmp_(round(s_(i, j), 4), t)
 
         def may(i, j):
             if both_empty(i, j):
                 return a['allow_empty']
-            if not T(lt[i][1]) or not T(rt[j][1]):
+            if not T(lv_(i)) or not T(rv_(j)):
                 return False
             return cmp_(round(s_(i, j), 4), t)
 
